@@ -239,6 +239,11 @@ def check_hang(binary, wd, h, v, prop, note, extra):
         note.append("StopTraversing() with a consumer that no longer reads never finishes either (same getPeers send; the statement of C16 "
                     "promises the close only for Close(); C14 judges the stranded goroutines): %s" % scn)
         return
+    if h["class"] not in ("Announce.Close:consumer-not-reading", "finish", "peers-not-closed"):
+        # the driver lost track of what the node is waiting for: that is not a statement about the property
+        v.inconclusive.append("the driver could not bring the node to a quiescent point (%s, reproduced 3x): %s; snapshot %s; scenario %s"
+                              % (h["class"], last["what"], last["snap"], scn))
+        return
     key = HANG_KEY if h["class"] == "Announce.Close:consumer-not-reading" else "hang:" + h["class"]
     rp = vlib.save_replay(prop, key.replace(":", "-").replace(".", "-"), {"hang.json": last, "scenario.json": h["scn"]},
                           dict(property=prop, key=key, kind="hang", scn=h["scn"], what=last["what"], snapshot=last["snap"], frames=last["frames"],
